@@ -848,9 +848,24 @@ impl FlexScen {
         }
     }
 
+    /// the wire: the `msg` bytes (hex, `+`-joined, in order) of every `WasmMsg::Execute` addressed to the deposit
+    /// token among the handler's messages — the `TransferFrom` that takes a cw20 deposit, the `Transfer` that
+    /// refunds it (`packages/cw3/src/deposit.rs`); proposal messages never target the token
+    fn render_depraw(&self, ms: &[CosmosMsg]) -> String {
+        ms.iter()
+            .filter_map(|m| match m {
+                CosmosMsg::Wasm(WasmMsg::Execute { contract_addr, msg, .. }) if *contract_addr == self.cw20.as_str() => {
+                    Some(crate::common::hex(msg.as_slice()))
+                }
+                _ => None,
+            })
+            .collect::<Vec<_>>()
+            .join("+")
+    }
+
     fn flex_outcome(&self, ok: bool, panicked: bool, log: &[Option<Vec<CosmosMsg>>]) -> String {
         match (ok, log.first()) {
-            (true, Some(Some(ms))) => format!("> ok msgs={}", self.render_msgs(ms)),
+            (true, Some(Some(ms))) => format!("> ok msgs={} depraw={}", self.render_msgs(ms), self.render_depraw(ms)),
             (true, _) => "> ok msgs=?".to_string(),
             (false, Some(Some(ms))) => format!("> err handler=ok tx=err msgs={}", self.render_msgs(ms)),
             (false, _) => {
